@@ -420,6 +420,15 @@ func (c *Ctx) checkQuorumGuard(rule string, reach map[*ssa.Function]bool, isProc
 			if gte == nil {
 				return
 			}
+			// every state write of the apply function sits behind the same quorum test
+			for _, e := range c.Effects(f) {
+				if e.In != f || e.Kind != "store" || !e.Store.IsWrite() {
+					continue
+				}
+				okW := ana.Guarded(e.At, atom)
+				r.Check(okW, rule, "write:"+e.Prefix+":"+fname(f), c.pos(e.At), "state write ("+e.Prefix+") guarded by the quorum test",
+					"the apply function writes "+e.Prefix+" on a path that has not passed the quorum test: an event that lacks 66% of the power changes hub state")
+			}
 			// threshold: the normal form Int.Quo(Int.Mul(NewInt(A),total),NewInt(B)) – multiply first, then divide
 			ex := p.Expr(gte.Call.Args[1], 3)
 			a, b, okT := parseThreshold(ex)
